@@ -2,7 +2,7 @@ CONSTANTS
   Servers <- S2
   Idents <- Id2
   Home <- HomeAll
-  Flows <- F2
+  Flows <- F1
   FlowDef <- FD
   CPorts <- P1
   NPorts = 4
@@ -10,14 +10,14 @@ CONSTANTS
   A = 6
   M = 8
   I = 2
-  B = 0
+  B = 1
   Deltas <- D3
   OtherKinds <- NoOther
   Strict = FALSE
-  ExK = 1
+  ExK = 4
   D = 1
 INIT Init
-NEXT NextL
+NEXT NextR
 VIEW viewMC
-ACTION_CONSTRAINT ExportT
+ACTION_CONSTRAINT ExportS
 CHECK_DEADLOCK FALSE
